@@ -15,6 +15,7 @@ import (
 	"github.com/ErdemOzgen/blackdagger/internal/persistence/filecache"
 	"github.com/ErdemOzgen/blackdagger/internal/persistence/grep"
 	"github.com/ErdemOzgen/blackdagger/internal/util"
+	"github.com/ErdemOzgen/blackdagger/internal/verifhook"
 )
 
 type dagStoreImpl struct {
@@ -108,6 +109,7 @@ func writeFileAtomic(loc string, data []byte, perm os.FileMode) error {
 		return err
 	}
 	tmpName := tmp.Name()
+	verifhook.Point("dagstore.save.tmpOpen", loc)
 	_, err = tmp.Write(data)
 	if cerr := tmp.Close(); err == nil {
 		err = cerr
@@ -116,6 +118,7 @@ func writeFileAtomic(loc string, data []byte, perm os.FileMode) error {
 		err = os.Chmod(tmpName, perm)
 	}
 	if err == nil {
+		verifhook.Point("dagstore.save.beforeRename", loc)
 		err = os.Rename(tmpName, loc)
 	}
 	if err != nil {
@@ -137,6 +140,7 @@ func (d *dagStoreImpl) Create(name string, spec []byte) (string, error) {
 	if exists(loc) {
 		return "", fmt.Errorf("%w: %s", errDAGFileAlreadyExists, loc)
 	}
+	verifhook.Point("dagstore.create.checked", loc)
 	// nolint: gosec
 	return name, os.WriteFile(loc, spec, 0644)
 }
@@ -354,6 +358,7 @@ func (d *dagStoreImpl) Rename(oldID, newID string) error {
 		// never overwrite another DAG
 		return fmt.Errorf("%w: %s", errDAGFileAlreadyExists, newLoc)
 	}
+	verifhook.Point("dagstore.rename.checked", newLoc)
 	return os.Rename(oldLoc, newLoc)
 }
 
